@@ -48,6 +48,10 @@ def main():
     if not fl and '#error' in src:
         fl = sorted(set(re.findall(r'-D(USE_[A-Z_]+=\d)', res['needs'])))[:1]
     flags = ' '.join('-D' + x for x in fl)
+    if '-std=c99' in src:
+        flags += ' -std=c99'
+    if '-fsanitize=undefined' in src + res['needs']:
+        flags += ' -fsanitize=undefined -fno-sanitize-recover=undefined'
     res['demo_flags'] = flags
     if '--wrap' in src + res['needs']:
         flags += ' -Wl,--wrap=strndup -Wl,--wrap=free'
